@@ -136,3 +136,73 @@ Proof.
   destruct (ext_execute (real_cfg skip) OpCreate bc (clear_stmt (execute (real_cfg skip) OpUpdate bu (rst0 orc)))) as [l E].
   rewrite E. cbn [clear_stmt r_log]. apply first_stmt_app. exact F.
 Qed.
+
+(* ---- CreateInBatches ---- *)
+Definition quiet (c : cfg) (s s' : rst) : Prop :=
+  exists l, r_log s' = r_log s ++ l /\ forallb is_tx_event l = true /\ (c_skip c = true -> l = []).
+
+Lemma quiet_refl : forall c s s', r_log s' = r_log s -> quiet c s s'.
+Proof. intros c s s' E. exists []. rewrite E, app_nil_r. auto. Qed.
+Lemma quiet_trans : forall c a b d, quiet c a b -> quiet c b d -> quiet c a d.
+Proof.
+  intros c a b d [l [E [T S]]] [l' [E' [T' S']]]. exists (l ++ l'). rewrite E', E, app_assoc.
+  split; [reflexivity|]. split; [rewrite forallb_app, T, T'; reflexivity|].
+  intro H. rewrite (S H), (S' H). reflexivity.
+Qed.
+
+Lemma quiet_begin : forall c s, quiet c s (begin_cb c s).
+Proof.
+  intros c s. unfold begin_cb. destruct (c_skip c) eqn:Sk; cbn [negb andb]; [apply quiet_refl; reflexivity|].
+  destruct (r_err s); cbn [negb]; [apply quiet_refl; reflexivity|].
+  unfold call. destruct (d_err _); exists [EBegin]; cbn; rewrite Sk; repeat split; discriminate.
+Qed.
+Lemma quiet_commit : forall c s, quiet c s (commit_cb c s).
+Proof.
+  intros c s. unfold commit_cb. destruct (c_skip c) eqn:Sk; cbn [negb andb]; [apply quiet_refl; reflexivity|].
+  destruct (r_started s); [|apply quiet_refl; reflexivity].
+  unfold call. destruct (r_err s); eexists; cbn; rewrite Sk; (split; [reflexivity|]); split; try reflexivity; discriminate.
+Qed.
+Lemma main_dry_log : forall c k b s, c_dry c = true -> r_log (main_cb c k b s) = r_log s.
+Proof.
+  intros c k b s Hd. unfold main_cb. rewrite Hd. cbv zeta. cbn [negb andb orb].
+  destruct k, (r_err s), (sql_empty s), (b_empty b); cbn [andb orb negb]; rewrite ?andb_false_r;
+    try reflexivity; destruct (r_err _); reflexivity.
+Qed.
+Lemma execute_dry_quiet : forall c k b s, c_dry c = true -> quiet c s (execute c k b s).
+Proof.
+  intros c k b s Hd. unfold execute. rewrite Hd.
+  destruct (has_tx_callbacks k).
+  - eapply quiet_trans; [apply quiet_begin|]. eapply quiet_trans; [|apply quiet_commit].
+    apply quiet_refl. apply main_dry_log. exact Hd.
+  - apply quiet_refl. apply main_dry_log. exact Hd.
+Qed.
+
+Lemma run_batches_quiet : forall c bs s, c_dry c = true -> quiet c s (run_batches c bs s).
+Proof.
+  intros c bs. induction bs as [|b r IH]; intros s Hd; cbn [run_batches]; [apply quiet_refl; reflexivity|].
+  destruct (r_err s); [apply quiet_refl; reflexivity|].
+  eapply quiet_trans; [|apply IH; exact Hd].
+  eapply quiet_trans; [apply (quiet_refl c s (clear_stmt s)); reflexivity | apply execute_dry_quiet; exact Hd].
+Qed.
+
+Lemma batches_dry_silent : forall skip bs orc,
+  forallb is_tx_event (r_log (create_in_batches (dry_cfg skip) bs (rst0 orc))) = true.
+Proof.
+  intros skip bs orc. unfold create_in_batches. cbn [c_skip c_dry dry_cfg].
+  destruct (skip || (length bs <=? 1)%nat).
+  - destruct (run_batches_quiet (dry_cfg skip) bs (rst0 orc) eq_refl) as [l [E [T _]]].
+    cbn [clear_stmt r_log]. rewrite E. exact T.
+  - unfold call. cbn [rst0 r_or r_log app].
+    set (d := match orc with d :: _ => d | [] => ok_res end).
+    destruct (d_err d); [reflexivity|].
+    match goal with |- context [run_batches ?c bs ?s] =>
+      destruct (run_batches_quiet c bs s eq_refl) as [l [E [T S]]]; destruct (r_err (run_batches c bs s)) end;
+      cbn [clear_stmt fst r_log]; rewrite E; cbn [r_log app]; rewrite (S eq_refl); reflexivity.
+Qed.
+
+Lemma batches_tosql_silent : forall bs orc, r_log (create_in_batches tosql_cfg bs (rst0 orc)) = [].
+Proof.
+  intros bs orc. unfold create_in_batches. cbn [c_skip tosql_cfg orb].
+  destruct (run_batches_quiet tosql_cfg bs (rst0 orc) eq_refl) as [l [E [_ S]]].
+  cbn [clear_stmt r_log]. rewrite E, (S eq_refl). reflexivity.
+Qed.
